@@ -660,7 +660,10 @@ def check_history(case):
                 same_state = np.array_equal(kept[0], now[0])
             else:
                 as_cart = lambda arr: np.asarray(StateVector(arr, orb.date, form, orb.frame).copy(form="cartesian").base, float)
-                same_state = np.allclose(as_cart(kept[0]), as_cart(now[0]), rtol=1e-9, atol=0.0)
+                a_, b_ = as_cart(kept[0]), as_cart(now[0])
+                # (compared against the size of the vectors: a component that is exactly zero before comes back as 1e-9 m)
+                same_state = (float(np.linalg.norm(a_[:3] - b_[:3])) <= 1e-9 * float(np.linalg.norm(a_[:3]))
+                              and float(np.linalg.norm(a_[3:] - b_[3:])) <= 1e-9 * float(np.linalg.norm(a_[3:])))
             if not (same_state and kept[1:3] == now[1:3] and np.array_equal(kept[3], now[3]) and kept[4] == now[4]):
                 raise Violation("refusal-not-atomic", f"{op['what']} -> {F!r} raised {refusal} but left the state / covariance changed: "
                                 f"labels {kept[1], kept[4]} -> {now[1], now[4]} [{describe(case, step)}]", step=step)
